@@ -121,10 +121,14 @@ PROPS = {
         partial=['threads_isolated is not a theorem (runtime fact; differential runs in 8 real threads)'],
     ),
     'C03': dict(
-        gen=['Scope', 'Timing'], props=['C03', 'Skeletons'], model=['Machine/Run', 'Machine/Step', 'Machine/Kernel', 'Judge/Judges'], harness='c03',
+        gen=['Scope', 'Timing'], props=['C03', 'MachineSignals', 'Skeletons'],
+        model=['Machine/Run', 'Machine/Step', 'Machine/Kernel', 'Judge/Judges', 'Lemmas/PushBucket', 'Lemmas/KView', 'Lemmas/KStepFrames',
+               'Lemmas/KStep', 'Lemmas/SView', 'Lemmas/SStepFrames', 'Lemmas/SStep'], harness='c03',
         trusted_base=KERNEL_TB + MACHINE_TB + ['coroutine skeletons pinned by regenerated templates (context.py, task.py, timing/notification/condition/flag, tracked.py)'],
         assumptions=['valid programs only: the generators avoid usage errors (past at= dates, negative delays, inverting a Moment)'],
-        partial=["the global invariants (every live signal has its frame on its owner's stack; termination / no livelock) are not proved: exact trace correspondence + judge only"],
+        partial=["Props/MachineSignals.lean proves for every program and every number of steps that a revoked signal stays revoked and that "
+                 "the loop drops its activation without resuming anybody; the other global invariants (every live signal has its frame on its "
+                 "owner's stack; termination / no livelock) are not proved: exact trace correspondence + judge only"],
     ),
     'C04': dict(
         gen=['Scope'], props=['C04'], model=['Machine/Run', 'Machine/Step', 'Machine/Kernel', 'Judge/Judges'], harness='c04',
